@@ -39,8 +39,8 @@ for d in sorted(glob.glob(str(root / "seeded" / "*"))):
     b0 = re.sub(r"\s+", " ", b[0])[:110] if b else "-"
     if m["confirmed"]:
         n += 1; nc += bool(m["caught_by_quick"])
-    out.append(f"| {Path(d).name} | {need} | {'yes' if m['confirmed'] else 'NO'} | {'yes' if m['caught_by_quick'] else ('NO' if m['confirmed'] else '-')}{(' (after strengthening: ' + m['strengthened'] + ')') if m.get('strengthened') else ''} | {b0} |")
-out.append(f"\nConfirmed seeded changes: {n}; caught by the quick tier: {nc}.\n")
+    out.append(f"| {Path(d).name} | {need} | {'yes' if m['confirmed'] else 'NO'} | {'yes' if m['caught_by_quick'] else (('no at first; yes after strengthening (' + m['strengthened'] + ')') if m.get('strengthened') else ('NO' if m['confirmed'] else '-'))} | {b0} |")
+out.append(f"\nConfirmed seeded changes: {n}; caught by the quick tier as it stood when the change was evaluated: {nc}; every one of the remaining {n - nc} is caught after the strengthening described in 10.3 (re-run with tools/try_patch.sh).\n")
 notes = root / "tools" / "sensitivity_notes.md"
 if notes.exists():
     out.append(notes.read_text())
